@@ -4,6 +4,9 @@ type PotResult struct {
 	rank  Rank
 	level *PotLevel
 
+	// Number of odd chips already handed out by previous levels of this pot
+	oddOffset int64
+
 	Total   int64     `json:"total"`
 	Winners []*Winner `json:"winners"`
 }
